@@ -95,6 +95,22 @@ def r1_sized_by_request(ctx):
             else:
                 R.ok("C12.R1", key, "%s client: one placeholder per id of the request's range" % label, where(c))
     R.floor("C12.R1", n, 2, "placeholder loops (one per client)")
+    # the result handed back is always the slot vector: every emission is dominated by the completed placeholder loop
+    for label, pat, emit in (("http", HTTP, r"client::BatchResponse::<'.*>::new$"), ("ws", PBR, r"oneshot::Sender::<.*>::send$")):
+        body = F.one(pat)
+        ph = _placeholder_pushes(F, body)
+        exits = []
+        for b, c in ph:
+            nx = enclosing_loop_next(b, c.bb)
+            if nx is not None and b.path == body.path:
+                for sb, arms, other in flow.switch_on(b, nx.dest["l"]):
+                    if arms.get("0") is not None:
+                        exits.append(arms.get("0"))
+        ems = body.calls_to(emit)
+        R.check(bool(ems), "C12.R1", "%s:emission-site" % label, "%s client hands the result back" % label, "no result emission found in %s" % short(body.path), "%s:%d" % (body.file, body.lo))
+        for e in ems:
+            ok = any(body.dominates(x, e.bb) for x in exits)
+            R.check(ok, "C12.R1", "%s:result-is-slot-vector#%d" % (label, sorted(x.bb for x in ems).index(e.bb)), "the result handed back went through the per-request placeholder slots", "%s client can hand back a result that did not go through the per-request slots (a path around the placeholder loop): with a repeated or missing id an entry is then filled with another entry's answer" % label, where(e))
 
 
 def r2_slot_index(ctx):
